@@ -1,5 +1,41 @@
-(* C07 property theorems (placeholder until the round-trip development lands). *)
-From DD Require Import Model.Lexer Model.Writer.
+(* C07 property theorems: rendering and re-parsing is the identity, in every
+   output mode.  Proofs are in Proofs/Lex. *)
+From DD Require Import Model.Lexer Model.Writer Spec.StdReader.
+From DD Require Import Proofs.Lex.Writers.
+
 Theorem w_check_eq_default : forall es, w_check es = w_default es.
-Proof. reflexivity. Qed.
+Proof. exact w_check_eq_default_proof. Qed.
 Print Assumptions w_check_eq_default.
+
+Theorem parse_w_check : forall es, forallb wf es = true -> parse (w_check es) = es.
+Proof. exact parse_w_check_proof. Qed.
+Print Assumptions parse_w_check.
+
+Theorem parse_w_default : forall es, forallb wf es = true -> parse (w_default es) = es.
+Proof. exact parse_w_default_proof. Qed.
+Print Assumptions parse_w_default.
+
+Theorem parse_w_pretty : forall es, forallb wf es = true -> parse (w_pretty es) = es.
+Proof. exact parse_w_pretty_proof. Qed.
+Print Assumptions parse_w_pretty.
+
+Theorem parse_w_wrap : forall es, forallb wf es = true -> parse (w_wrap es) = es.
+Proof. exact parse_w_wrap_proof. Qed.
+Print Assumptions parse_w_wrap.
+
+Theorem tokens_agree : forall es, forallb wf es = true ->
+  tokens_of (w_check es) (flats es) /\ tokens_of (w_default es) (flats es) /\
+  tokens_of (w_pretty es) (flats es) /\ tokens_of (w_wrap es) (flats es).
+Proof. exact tokens_agree_proof. Qed.
+Print Assumptions tokens_agree.
+
+(* the hypothesis is satisfiable on nested lists holding a string literal with
+   a parenthesis, a quoted symbol with a space, comments and an empty list *)
+Example parse_w_ex :
+  let es := [T [L [97%N; cDQ]; L [cDQ; cLP; cDQ; cDQ; cDQ];
+                L [cSEMI; 120%N; cRP; cLF];
+                T [T []; L [cBAR; cSP; cDQ; cBAR]; L [98%N]]];
+             L [cSEMI; cLF]; T [L [99%N]; L [100%N]]] in
+  forallb wf es = true /\
+  parse (w_check es) = es /\ parse (w_pretty es) = es /\ parse (w_wrap es) = es.
+Proof. vm_compute. repeat split; reflexivity. Qed.
